@@ -1627,6 +1627,15 @@ def normalize(project) -> List[str]:
     from .resolve import Scope as _Scope
 
     def style_passes(fn) -> int:
+        from . import normalize2 as _n2
+        _n2._ESC_CACHE.pop(id(fn), None)
+        _n2._ESC_CACHE[id(fn)] = _n2.escaping_names(fn)     # (these passes never move a name into or out of a nested function)
+        try:
+            return _style_passes(fn)
+        finally:
+            _n2._ESC_CACHE.pop(id(fn), None)
+
+    def _style_passes(fn) -> int:
         total = 0
         for _ in range(4):
             n = desugar(fn)
